@@ -141,6 +141,7 @@ class World:
             # parameter; in the second shape an inherited check hook and the automatic limit check both apply
             ms['split_limits'] = rng.random() < 0.4
             ms['redeclare'] = rng.random() < 0.3
+            ms['const_errors'] = rng.random() < 0.4
             for p in ms['params']:
                 if p['limits'] and p['check'] and not ms['split_limits']:
                     p['check'] = None
